@@ -19,6 +19,8 @@ ASSUMPTIONS = [
 
 def run(check):
     check.run_rule('C18.R2', lambda c: rule_merge_other(c, 'C18.R2'))
+    from ..rules_modifiers import rule_stacked_anchor_getters
+    check.run_rule('C18.R2b', lambda c: rule_stacked_anchor_getters(c, 'C18.R2'))
     check.run_rule('C18.R3', lambda c: rule_annotate_after_modifier(c, 'C18.R3'))
     check.run_rule('C18.R3b', lambda c: rule_prepare_table(c, None, 'C18.R3'))
     check.run_rule('C18.R4', lambda c: rule_descriptor_cache(c, 'C18.R4', 'C18.R1'))
